@@ -49,7 +49,8 @@ func mPairsSet(h map[string][]byte) Matcher {
 }
 
 // mRandom: count semantics shared by HRANDFIELD / SRANDMEMBER.
-//   count > 0: min(count,len) distinct existing members;  count < 0: exactly |count| existing members.
+//
+//	count > 0: min(count,len) distinct existing members;  count < 0: exactly |count| existing members.
 func mRandom(members map[string][]byte, count int64, withValues bool) Matcher {
 	n := int64(len(members))
 	desc := fmt.Sprintf("random selection count=%d withvalues=%v from %d members", count, withValues, n)
@@ -419,6 +420,12 @@ func init() {
 			if count < -(1 << 40) {
 				return errOut(n) // "value is out of range"
 			}
+		}
+		if count > math.MaxInt64/2 {
+			// the reference rejects counts beyond LONG_MAX/2 ("value is out of range"); answering
+			// like any count larger than the container is equally fine: both accepted
+			alt := s.Apply(append(append([][]byte{}, a[:2]...), append([][]byte{[]byte("4611686018427387903")}, a[3:]...)...))
+			return append(alt, Outcome{Reply: MErr(), Next: begin(s)})
 		}
 		if !ok {
 			return wrongType(n)
